@@ -38,8 +38,8 @@ EMPTY = frames.EMPTY
 
 def budget(tier):
     if tier == 'thorough':
-        return {'seeds': 40000, 'wall': 840, 'chunk': 100}
-    return {'seeds': 5000, 'wall': 150, 'chunk': 40}
+        return {'seeds': 400000, 'wall': 900, 'chunk': 100}
+    return {'seeds': 30000, 'wall': 200, 'chunk': 50}
 
 
 class _G:
